@@ -10,43 +10,100 @@ ASSUMPTIONS = [
     'process-level theorems assume operands resolve (no evaluator fuel exhaustion) and that registers are r0..r31 (grammar guarantee, tied by the reg8 Gen table)',
 ]
 
+SMALL_DEVICES = ['ATmega48', 'ATtiny2313', 'ATtiny13', 'ATmega8']      # 2K, 1K, 512 and 4K words of flash
+
 def program_cases(tier, seed, pool):
     """random programs of legal instructions: the image must be the concatenation of the ISA
-    words of every instruction at its real address (relative ones get numeric targets)"""
+    words of every instruction at its real address.  Targets of relative instructions are numbers,
+    distances from `pc`, labels (before and behind, also at the very end) or `.set`/`.equ` symbols
+    captured from `pc` (`.set` only: an `.equ` keeps its expression and `pc` in it means the place of use,
+    which no property speaks about); some programs select a small device or the reduced core (one-word lds/sts)."""
     import random
     rng = random.Random(seed)
     progs = []
     n = 400 if tier == 'quick' else 4000
     nonrel = [c for c in pool if c.core == 0 and c.mn not in ('rjmp', 'rcall', 'brbs', 'brbc') and not c.mn.startswith('br') or c.mn == 'break']
-    for _ in range(n):
-        lines, reqs, addr = [], [], 0
+    R, V, mk = E.R, E.V, E.mk
+    basic = [mk('nop'), mk('ret'), mk('ldi', R(16), V(1)), mk('mov', R(18), R(19)), mk('add', R(20), R(21)), mk('inc', R(17)), mk('cpi', R(22), V(200)),
+             mk('out', V(0x3f), R(16)), mk('in', R(16), V(0x3d)), mk('sbi', V(5), V(1)), mk('sei'), mk('subi', R(31), V(255)), mk('sbrc', R(16), V(7))]
+    small = basic + [mk('lds', R(16), V(0x100)), mk('sts', V(0x60), R(17)), mk('push', R(0)), mk('pop', R(31)), mk('mov', R(0), R(15))]
+    red = [c for c in pool if c.core == 1]
+    for pi in range(n):
+        k = rng.random()
+        dev, core = None, 0
+        if k < .12 and red: dev, core = 'ATtiny20', 1
+        elif k < .3: dev = rng.choice(SMALL_DEVICES)
         # a third of the programs do not start at 0: `.org N` (zero words before), so that an address taken
         # from the wrong counter (`pc`, relative distances) shows
         org = rng.choice([0, 0, 1, 16, rng.randrange(2, 300)])
-        if len(progs) % 40 == 7:
+        if pi % 40 == 7 and dev is None:
             # a few programs far up in the flash: addresses that no longer fit 12, 15, 16 or 17 bits
             org = rng.choice([0x7ff, 0x800, 0x1000, 0x7fff, 0x8000, 0xffff, 0x10000, 0x1ffff, 0x20000])
-        if org:
-            lines.append('.org %s' % E.num(org)); addr = org
+        # 1. the slots and their addresses
+        slots, addr = [], org
         for _ in range(rng.randrange(2, 40)):
             k = rng.random()
             if k < .25:
                 mn = rng.choice(['rjmp', 'rcall'] + ['br' + b for b in E.BRANCHES] + ['brbs', 'brbc'])
-                lim = 2048 if mn in ('rjmp', 'rcall') else 64
-                d = rng.choice([-lim, lim - 1, rng.randrange(-lim, lim), rng.randrange(-8, 8)])
-                t = addr + 1 + d
-                pre = ['v%d' % 3] if mn in ('brbs', 'brbc') else []
-                # the target as a number, or relative to the `pc` symbol (address of this instruction)
-                tgt = E.num(t) if rng.random() < .65 or t < 0 else rng.choice(['pc%+d' % (t - addr), 'PC %s %d' % ('+' if t >= addr else '-', abs(t - addr)), '%d + pc' % (t - addr) if t >= addr else 'pc - %d' % (addr - t)])
-                lines.append('%s %s%s' % (mn, '3, ' if pre else '', tgt))
-                reqs.append((mn, addr, pre + ['v%d' % t], 1))
-                addr += 1
+                slots.append(dict(kind='rel', mn=mn, addr=addr, w=1))
+            elif k < .32:
+                slots.append(dict(kind='ldilabel', addr=addr, w=1))
+            elif k < .4:
+                form = rng.choice([('pc', 0), ('pc', 0), ('PC + 2', 2), ('pc - 1', -1), ('pc+1', 1)])
+                slots.append(dict(kind='capture', addr=addr, w=0, name='h%d' % len(slots), dirv='.set', text=form[0], value=addr + form[1]))
             else:
-                c = rng.choice(nonrel)
-                lines.append(c.src)
-                w = 2 if c.mn in ('jmp', 'call', 'lds', 'sts') else 1
-                reqs.append((c.mn, addr, c.toks, w))
-                addr += w
+                c = rng.choice(red + basic if core else small if dev else nonrel)
+                w = 2 if c.mn in ('jmp', 'call') or (c.mn in ('lds', 'sts') and not core) else 1
+                slots.append(dict(kind='ins', c=c, addr=addr, w=w))
+            addr += slots[-1]['w']
+        end = addr
+        addr_of = [s_['addr'] for s_ in slots] + [end]
+        labelled = set()
+        lines, reqs = [], []
+        if dev: lines.append('.device %s' % dev)
+        if org: lines.append('.org %s' % E.num(org))
+        body = []
+        for i, s_ in enumerate(slots):
+            a = s_['addr']
+            if s_['kind'] == 'rel':
+                mn = s_['mn']
+                lim = 2048 if mn in ('rjmp', 'rcall') else 64
+                mode = rng.random()
+                inrange = [j for j in range(len(addr_of)) if -lim <= addr_of[j] - (a + 1) < lim]
+                caps = [x for x in slots[:i] if x['kind'] == 'capture' and -lim <= x['value'] - (a + 1) < lim and x['value'] >= 0] + \
+                       [x for x in slots[i:] if x['kind'] == 'capture' and x['dirv'] == '.equ' and -lim <= x['value'] - (a + 1) < lim and x['value'] >= 0]
+                if mode < .35 and inrange:
+                    j = rng.choice(inrange); labelled.add(j); t = addr_of[j]
+                    tgt = rng.choice(['L%d', 'l%d', 'L%d']) % j
+                elif mode < .5 and caps:
+                    x = rng.choice(caps); t = x['value']; tgt = x['name']
+                else:
+                    d = rng.choice([-lim, lim - 1, rng.randrange(-lim, lim), rng.randrange(-8, 8)])
+                    t = a + 1 + d
+                    # the target as a number, or relative to the `pc` symbol (address of this instruction)
+                    tgt = E.num(t) if rng.random() < .65 or t < 0 else rng.choice(['pc%+d' % (t - a), 'PC %s %d' % ('+' if t >= a else '-', abs(t - a)), '%d + pc' % (t - a) if t >= a else 'pc - %d' % (a - t)])
+                pre = ['v%d' % 3] if mn in ('brbs', 'brbc') else []
+                body.append((i, '%s %s%s' % (mn, '3, ' if pre else '', tgt)))
+                reqs.append((mn, a, pre + ['v%d' % t], 1, 0))
+            elif s_['kind'] == 'ldilabel':
+                j = rng.randrange(len(addr_of)); labelled.add(j)
+                fn = rng.choice(['low', 'high', 'LOW'])
+                v = addr_of[j] & 0xff if fn.lower() == 'low' else (addr_of[j] >> 8) & 0xff
+                body.append((i, 'ldi r%d, %s(L%d)' % (16 + i % 16, fn, j)))
+                reqs.append(('ldi', a, ['r%d' % (16 + i % 16), 'v%d' % v], 1, 0))
+            elif s_['kind'] == 'capture':
+                body.append((i, '%s %s = %s' % (s_['dirv'], s_['name'], s_['text'])))
+            else:
+                c = s_['c']
+                body.append((i, c.src.split('\n')[-1]))
+                reqs.append((c.mn, a, c.toks, s_['w'], c.core))
+        for i, text in body:
+            if i in labelled:
+                if rng.random() < .5: lines.append('L%d:' % i); lines.append(text)
+                else: lines.append('L%d: %s' % (i, text))
+            else:
+                lines.append(text)
+        if len(slots) in labelled: lines.append('L%d:' % len(slots))
         progs.append(('\n'.join(lines), reqs, org))
     return progs
 
@@ -57,8 +114,8 @@ def run_programs(progs, model_ok):
     model = vlib.run_model(trip, vlib.cwd_prelude()) if model_ok else {}
     lines = []
     for i, (src, reqs, org) in enumerate(progs):
-        for j, (mn, addr, toks, w) in enumerate(reqs):
-            lines.append('%d.%d ENC 0 %s %d %s' % (i, j, mn, addr, ' '.join(toks)))
+        for j, (mn, addr, toks, w, core) in enumerate(reqs):
+            lines.append('%d.%d ENC %d %s %d %s' % (i, j, core, mn, addr, ' '.join(toks)))
     spec, _, _ = vlib.run_lines(E.SPEC, lines, mode=None)
     dis, vio = [], []
     for i, (src, reqs, org) in enumerate(progs):
@@ -86,7 +143,7 @@ def run(tier, seed, model_ok):
     dist = Counter(c.mn for c in cases)
     return {
         'evaluations': len(cases) + len(progs), 'distinct_nontrivial': len({c.src for c in cases}),
-        'rule': 'every legal operand tuple of every one-word instruction form (exhaustive), lds/sts over a stride of the 16-bit address space for 3 registers plus boundary addresses for all registers, jmp/call over all 64 high fields x boundary low words, reduced-core lds/sts exhaustive; each a one-line program through build_str; the same written through .def aliases/.equ symbols/expressions (every 7th); plus seeded random programs of 2..40 legal instructions (relative ones with numeric targets) whose image must be the concatenation of the ISA words at the real addresses; distinct = distinct source texts (all are non-trivial: each denotes a different instruction/operand tuple)',
+        'rule': 'every legal operand tuple of every one-word instruction form (exhaustive), lds/sts over a stride of the 16-bit address space for 3 registers plus boundary addresses for all registers, jmp/call over all 64 high fields x boundary low words, reduced-core lds/sts exhaustive; each a one-line program through build_str; the same written through .def aliases/.equ symbols/expressions (every 7th); plus seeded random programs of 2..40 legal instructions, on the default device, four small devices and the reduced core, starting at 0 or behind an .org, relative ones aimed at numbers, distances from pc, labels before/behind/at the end, and .set/.equ symbols captured from pc, ldi of low/high(label), whose image must be the concatenation of the ISA words at the real addresses; distinct = distinct source texts (all are non-trivial: each denotes a different instruction/operand tuple)',
         'samples': [cases[0].src, cases[len(cases) // 2].src, cases[-1].src],
         'exhaustive': True,
         'distribution': {'cases_per_mnemonic_top': dist.most_common(12), 'mnemonics': len(dist)},
